@@ -162,6 +162,9 @@ def discharge_local(F, fn, site, o, lin, facts_cache):
                 return "opsmap-monotone", "ops.len() >= 1 here: a push dominates the snapshot and OpsMap never shrinks (R36)"
             if len(syms) == 2 and len(pos) == 1 and len(neg) == 1 and k >= 0 and cfg.dominates(fn, neg[0][1], pos[0][1]):
                 return "opsmap-monotone", "len_b - len_a (+%d) with len_b taken after len_a: OpsMap only grows between them (R36)" % k
+            if len(syms) == 2 and len(pos) == 1 and len(neg) == 1 and k == -1 and cfg.dominates(fn, neg[0][1], pos[0][1]) and \
+                    any(cfg.dominates(fn, neg[0][1], pb) and cfg.dominates(fn, pb, pos[0][1]) and pb not in (neg[0][1],) for pb in pushes):
+                return "opsmap-monotone", "len_b - len_a - 1 with a push between the two snapshots on every path: len_b >= len_a + 1 (R36)"
         # x - c dominated by a comparison that establishes x >= c on the same variable
         c_const = _const_int(fn, t["ops"][1])
         if c_const is not None:
@@ -664,6 +667,15 @@ def r83(F):
     r.inst("END-never-consumed", "src/parse", ok, "TokenType::END is only inspected by parse() to stop" if ok else "grammar rules match END: %s" % sorted(set(users)))
     tz = F.fn("ucglib::tokenizer::tokenize")
     ends = [b for b, j, pl, rv, m in tz.assigns() if rv["k"] == "agg" and rv.get("adt") == "ucglib::ast::Token"]
+    # ... or built through the constructor with the constant type END
+    otz = Origins(tz)
+    for b, t in tz.calls():
+        if callee(t).startswith("ucglib::ast::Token::new") and len(t["args"]) >= 2:
+            tl = otz.at(t["args"][1], b)
+            kinds = {x[2] for x in tl if x[0] == "agg" and x[1] == "ucglib::ast::TokenType"} | \
+                {str(x[2]).split("::")[-1] for x in tl if x[0] == "const" and x[1] == "variant"}
+            if kinds == {"END"} and not [x for x in tl if x[0] == "call"]:
+                ends.append(b)
     pushes_after = [b for b, t in tz.calls() if callee(t) == "alloc::vec::Vec::push" and any(cfg.dominates(tz, e, b) for e in ends)]
     oks = {b for b, j, pl, rv, m in tz.assigns() if pl["l"] == 0 and not pl["p"] and rv["k"] == "agg" and rv.get("variant") == "Ok"}
     ok = bool(pushes_after) and all(not (cfg.reachable(tz, 0, removed=set(pushes_after)) & oks) for _ in [0])
@@ -874,7 +886,7 @@ def r77(F):
     cs = {callee(t) for b, t in isc.calls()}
     ok = any(c.endswith("is_ascii_alphanumeric") for c in cs)
     r.inst("peek-subset:ascii_alpha<=is_symbol_char", isc.where(), ok, "is_symbol_char accepts every ASCII letter" if ok else "is_symbol_char no longer accepts all letters: barewordtok can succeed on nothing")
-    tz = F.fn(TK + "tokenize")
+    tz = F.fn(TK + "tokenize", flat=True)      # `token` may be called from a helper that produces the next token
     loops = cfg.natural_loops(tz)
     need(len(loops) >= 1, "no loop in tokenize")
     h, body = max(loops.items(), key=lambda x: len(x[1]))
@@ -891,6 +903,7 @@ def r78(F):
                    "non-negative constant; op_jump only adds; OpPointer::jump is only called with the current index or through op_jump: "
                    "within one VM::run the pointer strictly increases between fetches", floor=10)
     JUMPS = ("Jump", "JumpIfTrue", "JumpIfFalse", "SelectJump", "And", "Or", "Func", "Module", "InitThunk", "NewScope")
+    from .. import flatten
     te = F.fn(TR.T + "translate_expr")
     lin = Linear(te)
     patch = {rp["bb"] for rp in TR.replaces(te)}
@@ -903,10 +916,11 @@ def r78(F):
                 if "int" in op:
                     ok = int(op["int"]) >= 0
                     r.inst("%s:%s:const" % (name.split("::")[-1], rv["variant"]), fn.where(b), ok, "constant offset %s" % op["int"] if ok else "negative jump offset %s: the VM loops" % op["int"])
-                elif name == te.name:
-                    # feeds a replace
-                    feeds = any(TR.agg_def(te, op_local(rp["term"]["args"][2]), rp["bb"]) is rv or (rp["agg"] is rv) for rp in TR.replaces(te))
-                    r.inst("%s:%s:patched" % (name.split("::")[-1], rv["variant"]), fn.where(b), feeds, "offset computed at a patch site (R3: len_b - len_a)" if feeds else "jump opcode built outside a patch site")
+                elif name == te.name or (name.startswith(TR.T) and flatten.sole_caller(F, name) == te.name):
+                    # feeds a replace (a piece of translate_expr moved into a private helper is held to the same: within the helper)
+                    view = te if name == te.name else fn
+                    feeds = any(TR.agg_def(view, op_local(rp["term"]["args"][2]), rp["bb"]) is rv or (rp["agg"] is rv) for rp in TR.replaces(view))
+                    r.inst("%s:%s:patched" % (te.name.split("::")[-1], rv["variant"]), fn.where(b), feeds, "offset computed at a patch site (R3: len_b - len_a)" if feeds else "jump opcode built outside a patch site")
                 elif name.startswith("<ucglib::build::opcode::Op as") or name.startswith("ucglib::build::opcode::debug") or name.startswith("ucglib::build::opcode::display"):
                     continue
                 else:
